@@ -109,4 +109,14 @@ def strategy(tier):
     return st.builds(lambda s, rr: dict(s, rerun=rr), base, st.booleans())
 
 
-PARTS = [Part("quiescence", run, strategy, {"quick": 2400, "thorough": 60000}, rule=RULE)]
+def strat_directed(tier):
+    from hypothesis import strategies as st
+
+    base = gen.directed_scenario(gen.fork_join_ir(items=True, retry=True), controls={"pause": 1, "resume": 1}, max_choices=60)
+    return st.builds(lambda s, rr: dict(s, rerun=rr), base, st.booleans())
+
+
+PARTS = [
+    Part("quiescence", run, strategy, {"quick": 2000, "thorough": 60000}, rule=RULE),
+    Part("fork-join", run, strat_directed, {"quick": 1000, "thorough": 30000}, rule="directed fork-join (join all / N, late and missing arrivals) under arbitrary schedules"),
+]
